@@ -10,7 +10,7 @@ using namespace c11;
 
 namespace {
 // ======================================================================================= sub `tree`
-enum { NODE, OP_INIT, OP_START, OP_STOP, OP_CLEANUP, FILLCFG, NOPS };
+enum { NODE, OP_INIT, OP_START, OP_STOP, OP_CLEANUP, FILLCFG, NOCLEANUP, PLAINROOT, NOPS };
 const int kMaxNodes = 25, kMaxDepth = 4, kMaxCalls = 16;
 
 // node <parent> <optional> <namemode> <init> <start>
@@ -18,6 +18,9 @@ const int kMaxNodes = 25, kMaxDepth = 4, kMaxCalls = 16;
 //   optional : 0 required, 1 optional          namemode : 0 unnamed 1 named 2 named by addAs() 3 named, config field missing
 //   init/start : 0 hook succeeds, 1 fails, 2 fails on the first attempt only
 // initialize | start | stop | cleanup : calls on the root, in order of appearance (cleanup() + destruction are always appended)
+// nocleanup : end of life - the root is destroyed right after the last call, without the final cleanup() (from whatever
+//             state the calls left it in: kNone, kInited, kRunning, after stop, after a failed initialize/start)
+// plainroot : the root is a plain tbox::main::Module (no hooks of its own, like Main()'s `apps`) instead of a probe
 // fillcfg : the config is produced by fillDefaultConfig() instead of by hand (then no field is ever missing)
 void decode_tree(const Scenario &s, TreeSpec &t, std::vector<int> &calls) {
   std::vector<int> depth;
@@ -42,6 +45,8 @@ void decode_tree(const Scenario &s, TreeSpec &t, std::vector<int> &calls) {
     } else if (op.code >= OP_INIT && op.code <= OP_CLEANUP) {
       if ((int)calls.size() < kMaxCalls) calls.push_back(op.code - OP_INIT);
     } else if (op.code == FILLCFG) t.fillcfg = true;
+    else if (op.code == NOCLEANUP) t.no_final_cleanup = true;
+    else if (op.code == PLAINROOT) t.plain_root = true;
   }
   if (t.nodes.empty()) t.nodes.push_back(NodeSpec());
   normalise(t);
@@ -61,8 +66,8 @@ std::string run_tree(const Scenario &s, CaseInfo &info) {
 
 SubDef def_tree = [] {
   SubDef d; d.name = "tree";
-  d.op_names = {"node", "initialize", "start", "stop", "cleanup", "fillcfg"};
-  d.op_arity = {5, 0, 0, 0, 0, 0};
+  d.op_names = {"node", "initialize", "start", "stop", "cleanup", "fillcfg", "nocleanup", "plainroot"};
+  d.op_arity = {5, 0, 0, 0, 0, 0, 0, 0};
   d.nt_rule = "a call on the root in which a required non-root module fails its init/start phase after an earlier sibling completed that phase, "
               "or an optional module whose own hook succeeded fails the phase because of a required descendant (optional subtree fails half-way)";
   d.run = run_tree;
@@ -86,13 +91,30 @@ SubDef def_tree = [] {
         {1, fixedOps({mkop(FILLCFG, {}), mkop(OP_INIT, {}), mkop(OP_START, {})})},
         {1, fixedOps({mkop(FILLCFG, {})})}});
     auto calls = rc::gen::scale(0.5, opsOf(callop));
-    return rc::gen::apply([](Op root, std::vector<Op> nodes, std::vector<Op> pre, std::vector<Op> calls) {
+    // end of life: half of the cases destroy the root without the final cleanup(); 23 % use a plain-Module root
+    auto I = [] { return mkop(OP_INIT, {}); }; auto S = [] { return mkop(OP_START, {}); }; auto T = [] { return mkop(OP_STOP, {}); };
+    auto NC = [] { return mkop(NOCLEANUP, {}); }; auto PR = [] { return mkop(PLAINROOT, {}); };
+    // (the calls in these tails are appended to the random sequence, so that the destruction really starts from
+    //  kInited / after stop / kRunning / after a failed start often enough)
+    auto eol = weightedOneOf<std::vector<Op>>({
+        {9, just(std::vector<Op>())},
+        {3, fixedOps({NC()})},
+        {2, fixedOps({I(), NC()})},
+        {1, fixedOps({I(), S(), T(), NC()})},
+        {1, fixedOps({S(), NC()})},
+        {1, fixedOps({T(), NC()})},
+        {2, fixedOps({PR()})},
+        {1, fixedOps({PR(), NC()})},
+        {1, fixedOps({PR(), I(), NC()})},
+        {1, fixedOps({PR(), I(), S(), T(), NC()})}});
+    return rc::gen::apply([](Op root, std::vector<Op> nodes, std::vector<Op> pre, std::vector<Op> calls, std::vector<Op> eol) {
       Scenario s; s.ops.push_back(std::move(root));
       for (auto &o : nodes) s.ops.push_back(std::move(o));
       for (auto &o : pre) s.ops.push_back(std::move(o));
       for (auto &o : calls) s.ops.push_back(std::move(o));
+      for (auto &o : eol) s.ops.push_back(std::move(o));
       return s;
-    }, rootop, nodes, prefix, calls);
+    }, rootop, nodes, prefix, calls, eol);
   };
 #endif
   return d;
@@ -105,7 +127,9 @@ VERIF_REGISTER(&def_tree);
 // {ok, onInit fails, onStart fails} per node; part B = the same with 1..maxnodes-1 nodes and the six outcomes
 // {ok, onInit fails, onStart fails, config field missing, onInit fails once, onStart fails once} per node;
 // each tree configuration is run with EVERY call sequence over {initialize,start,stop,cleanup} of length 0..maxlen
-// (cleanup() and destruction appended).  Configuration j belongs to slice j % total.
+// followed by destruction of the root, and every sequence of the maximal length additionally followed by cleanup() and
+// destruction (= every sequence of <= maxlen calls destroyed from whatever state it reached, plus every sequence with a final
+// cleanup()).  Configuration j belongs to slice j % total.
 enum { SLICE };
 const int kOutcomesA = 3, kOutcomesB = 6;
 
@@ -160,7 +184,7 @@ std::string run_exhaustive(const Scenario &s, CaseInfo &info) {
     for (uint64_t c = 0; c < cnt; ++c) { std::vector<int> q(len); uint64_t v = c; for (int i = 0; i < len; ++i) { q[i] = (int)(v & 3); v >>= 2; } seqs.push_back(std::move(q)); }
   }
 
-  uint64_t j = 0, configs = 0, cases = 0, nt = 0, teardown_running = 0;
+  uint64_t j = 0, configs = 0, cases = 0, nt = 0, teardown_running = 0, destroyed_from[3] = {0, 0, 0};
   Flags acc_any;
   for (const Part &p : parts) {
     for (uint64_t local = 0; local < p.total; ++local, ++j) {
@@ -174,10 +198,14 @@ std::string run_exhaustive(const Scenario &s, CaseInfo &info) {
       }
       for (int i = 0; i < p.n; ++i) { set_outcome(t.nodes[i], (int)(v % p.outcomes)); v /= p.outcomes; }
       ++configs;
-      for (const auto &q : seqs) {
+      // end of life: every sequence followed directly by destruction; sequences of the maximal length additionally
+      // followed by cleanup() + destruction (for shorter ones that is the same as the sequence extended by `cleanup`)
+      for (const auto &q : seqs) for (int eol = 0; eol < ((int)q.size() == maxlen ? 2 : 1); ++eol) {
+        t.no_final_cleanup = eol == 0;
         Flags f;
         std::string err = run_tree_case(t, q.data(), q.size(), f);
         ++cases;
+        if (f.destroyed_from >= 0) ++destroyed_from[f.destroyed_from];
         if (f.nontrivial()) ++nt;
         if (f.req_fail_after_ok_sibling_init) acc_any.req_fail_after_ok_sibling_init = true;
         if (f.req_fail_after_ok_sibling_start) acc_any.req_fail_after_ok_sibling_start = true;
@@ -195,6 +223,9 @@ std::string run_exhaustive(const Scenario &s, CaseInfo &info) {
   stats().counters["enumerated_tree_configs"] += configs;
   stats().counters["enumerated_nontrivial_cases"] += nt;
   stats().counters["enumerated_cleanup_of_running_tree_cases"] += teardown_running;
+  stats().counters["enumerated_destroyed_without_cleanup_kNone"] += destroyed_from[0];
+  stats().counters["enumerated_destroyed_without_cleanup_kInited"] += destroyed_from[1];
+  stats().counters["enumerated_destroyed_without_cleanup_kRunning"] += destroyed_from[2];
   (void)j;
   static char label[96];
   snprintf(label, sizeof label, "space:nodes<=%d_x3outcomes+nodes<=%d_x6outcomes,calls<=%d", maxnodes, maxnodes - 1, maxlen);
